@@ -114,9 +114,10 @@ where
         ..
     } = opened_values_targets;
 
-    // `degree_bits` is prover-supplied: it must be a valid shift amount and, with a hiding PCS,
-    // cover the ZK adjustment (the initial trace domain has `degree >> is_zk` points).
-    if *degree_bits >= usize::BITS as usize || *degree_bits < config.is_zk() {
+    // `degree_bits` is prover-supplied: a domain larger than the PCS supports does not exist
+    // (the PCS would panic building it) and, with a hiding PCS, it must cover the ZK adjustment
+    // (the initial trace domain has `degree >> is_zk` points).
+    if *degree_bits > config.pcs().log_max_lde_height() || *degree_bits < config.is_zk() {
         return Err(VerificationError::InvalidProofShape(format!(
             "invalid degree bits {degree_bits}"
         )));
